@@ -66,24 +66,47 @@ Fixpoint nodup_sorted_insert (x : N) (l : list N) : list N :=
   | y :: r => if x <? y then x :: l else if x =? y then l else y :: nodup_sorted_insert x r
   end.
 
-Definition obs_of (T : tree) (maxn : N) (txids : list N) (o : outcome) : sx :=
+(* BlockChain.txLookupCache as the harness drives it: after every operation it asks
+   GetCanonicalTransaction for every tx of the case; a hit is answered from the cache, a
+   miss from the index (rawdb.ReadCanonicalTransaction) and, when found, cached.  The cache
+   is emptied by reorg and SetHead ([EvPurge]) and does not survive a restart. *)
+Definition cache : Type := list (N * (N * N)).
+Fixpoint cache_get (c : cache) (tx : N) : option (N * N) :=
+  match c with
+  | [] => None
+  | (t, v) :: r => if t =? tx then Some v else cache_get r tx
+  end.
+Definition answer (T : tree) (st : db) (c : cache) (tx : N) : option (N * N) :=
+  match cache_get c tx with Some v => Some v | None => resolve_tx T st tx end.
+Definition refresh (T : tree) (st : db) (c : cache) (txids : list N) : cache :=
+  fold_left (fun acc tx => match cache_get acc tx with
+                           | Some _ => acc
+                           | None => match resolve_tx T st tx with Some v => (tx, v) :: acc | None => acc end
+                           end) txids c.
+Definition purges (o : op) (evs : list event) : bool :=
+  (match o with ORestart => true | _ => false end) ||
+  existsb (fun ev => match ev with EvPurge => true | _ => false end) evs.
+
+Definition obs_of (T : tree) (maxn : N) (txids : list N) (c : cache) (o : outcome) : sx :=
   let '(st, evs, e) := o in
   SL [ SI (err_code e);
        SL (map (fun k => sopt sn (canon st (N.of_nat k))) (seq 0 (N.to_nat maxn + 2)));
        SL [sn (hd_block st); sn (hd_header st); sn (hd_snap st)];
        SL (map (fun tx => sopt sn (lookup st tx)) txids);
-       SL (map (fun tx => match resolve_tx T st tx with
+       SL (map (fun tx => match answer T st c tx with
                           | Some (h, n) => SL [sn h; sn n] | None => SL [] end) txids);
        SL (flat_map (fun ev => match ev with EvChain h => [sn h] | _ => [] end) evs);
        SL (flat_map (fun ev => match ev with EvRemoved l => [SL (map sn l)] | _ => [] end) evs);
        SL (flat_map (fun ev => match ev with EvLogs l => [SL (map sn l)] | _ => [] end) evs);
        SL (flat_map (fun ev => match ev with EvHead h => [sn h] | _ => [] end) evs) ].
 
-Fixpoint run_ops (T : tree) (fuel : nat) (maxn : N) (txids : list N) (st : db) (ops : list op) : list sx :=
+Fixpoint run_ops (T : tree) (fuel : nat) (maxn : N) (txids : list N) (st : db) (c : cache) (ops : list op) : list sx :=
   match ops with
   | [] => []
   | o :: r => let out := step T fuel st o in
-              obs_of T maxn txids out :: run_ops T fuel maxn txids (fst (fst out)) r
+              let st1 := fst (fst out) in
+              let c1 := if purges o (snd (fst out)) then [] else c in
+              obs_of T maxn txids c1 out :: run_ops T fuel maxn txids st1 (refresh T st1 c1 txids) r
   end.
 
 Definition C38_run (c : sx) : sx :=
@@ -95,7 +118,7 @@ Definition C38_run (c : sx) : sx :=
       let maxn := fold_left (fun m b => N.max m (b_number (snd (fst b)))) blocks 0 in
       let txids := fold_left (fun acc b => fold_left (fun a t => nodup_sorted_insert t a) (snd b) acc) blocks [] in
       let fuel := (2 * N.to_nat maxn + 20)%nat in
-      SL (run_ops T fuel maxn txids genesis_db ops)
+      SL (run_ops T fuel maxn txids genesis_db [] ops)
     | _, _ => SErr 1
     end
   | _ => SErr 0
